@@ -43,6 +43,10 @@ func init() {
 		"fmt.Errorf":                    extNewError,
 		"math.Floor":                    extFloorCeil(true),
 		"math.Ceil":                     extFloorCeil(false),
+		"math.Pow": func(fr *frame, st *state, c *ssa.CallCommon, args []string, pos token.Pos) []string {
+			fr.fc.e.u.global("(declare-fun rpow (Real Real) Real)")
+			return []string{fr.fc.sc.define("m", "Real", app("rpow", args[0], args[1]))}
+		},
 		"math.Abs":                      extMath1(func(x string) string { return fmt.Sprintf("(ite (>= %s 0.0) %s (- %s))", x, x, x) }),
 		"unicode/utf8.RuneCountInString": extRuneCount,
 		"fmt.Sprintf":                    extSprintf,
@@ -110,7 +114,8 @@ func extHasPrefix(fr *frame, st *state, c *ssa.CallCommon, args []string, pos to
 	if lit, ok := litOf(c.Args[1]); ok {
 		return []string{sc.define("hasprefix", "Bool", hasPrefixTerm(args[0], lit))}
 	}
-	r := sc.declare("hasprefix", "Bool")
+	fr.fc.e.u.global("(declare-fun str_hasprefix (Int Int) Bool)")
+	r := sc.define("hasprefix", "Bool", app("str_hasprefix", app("skey", args[0]), app("skey", args[1])))
 	sc.assume(fmt.Sprintf("(=> %s (>= (slen %s) (slen %s)))", r, args[0], args[1]))
 	sc.assume(fmt.Sprintf("(=> (= (slen %s) 0) %s)", args[1], r))
 	return []string{r}
@@ -126,7 +131,8 @@ func extHasSuffix(fr *frame, st *state, c *ssa.CallCommon, args []string, pos to
 		}
 		return []string{sc.define("hassuffix", "Bool", and(parts...))}
 	}
-	r := sc.declare("hassuffix", "Bool")
+	fr.fc.e.u.global("(declare-fun str_hassuffix (Int Int) Bool)")
+	r := sc.define("hassuffix", "Bool", app("str_hassuffix", app("skey", args[0]), app("skey", args[1])))
 	sc.assume(fmt.Sprintf("(=> %s (>= (slen %s) (slen %s)))", r, args[0], args[1]))
 	return []string{r}
 }
